@@ -2,7 +2,7 @@
 (* Evaluates recorded calls of corebgp's pure (codec / decoder) functions
    against the functional specification modules.  One state per recorded
    case; a mismatch prints its index.                                       *)
-EXTENDS Integers, Sequences, FiniteSets, TLC, Json, Attrs, Prefix, Update
+EXTENDS Integers, Sequences, FiniteSets, TLC, Json, Attrs, Prefix, Update, Open, Notif
 
 CONSTANT CaseFile
 
@@ -157,8 +157,149 @@ UpdateOK(c) ==
   /\ (r.err.t = "nil" <=> ls = <<>>)
   /\ r.notif = FromErr(r.err)
 
+---------------------------------------------------------------------------
+(* OPEN / NOTIFICATION / capability codecs (C15), OPEN validation (C02),
+   OPEN construction (C14), framing (C08) *)
+NRec(code, sub, data) == [code |-> code, sub |-> sub, data |-> data]
+
+NotifCodecOK(c) ==
+  /\ ~c.r.panic
+  /\ c.r.enc = NEncode(c.code, c.sub, c.data)
+  /\ c.r.dec.ok /\ c.r.dec.n = NRec(c.code, c.sub, c.data)
+
+NotifDecOK(c) ==
+  LET d == NDecode(c.b) IN
+  /\ ~c.r.panic
+  /\ c.r.dec.ok = d.ok
+  /\ d.ok => c.r.dec.n = NRec(d.code, d.sub, d.data) /\ c.r.reenc = Frame(TypeNotification, c.b)
+
+ViewMatches(v, b) ==
+  /\ v.version = Version(b) /\ v.as2 = AS2(b) /\ v.hold = HoldTime(b) /\ v.id = BGPId(b)
+  /\ v.params = ParamsCaps(b)
+
+StructRefusalOK(e, b) ==
+  e.kind = "notif" /\ \E f \in StructFaults(b) : NotifFits(e.n, f, b)
+
+OpenDecOK(c) ==
+  LET r == c.r IN
+  /\ ~r.panic
+  /\ r.ok = StructurallySound(c.b)                 \* strict: accepts exactly the structurally sound bodies
+  /\ IF r.ok THEN ViewMatches(r.view, c.b) /\ r.reenc = Frame(TypeOpen, c.b)
+             ELSE StructRefusalOK(r.e, c.b)
+
+RECURSIVE ParamsBytes(_, _)
+ParamsBytes(ps, k) ==
+  IF k > Len(ps) THEN <<>>
+  ELSE LET cb == CapsBytes(ps[k], 1) IN <<ParamCaps, Len(cb)>> \o cb \o ParamsBytes(ps, k + 1)
+
+BodyOfView(v) ==
+  LET pb == ParamsBytes(v.params, 1) IN
+  <<v.version>> \o U16Bytes(v.as2) \o U16Bytes(v.hold) \o v.id \o <<Len(pb)>> \o pb
+
+OpenEncOK(c) ==
+  /\ ~c.r.panic
+  /\ c.r.enc = Frame(TypeOpen, BodyOfView(c.view))
+  /\ c.r.ok /\ c.r.view = c.view                  \* decode(encode(x)) = x
+
+OpenValOK(c) ==
+  LET r == c.r IN
+  /\ ~r.panic
+  /\ r.decoded = StructurallySound(c.b)
+  /\ IF r.ok
+       THEN /\ MayAccept(c.b, c.cfg)
+            /\ r.caps = Carried(c.b) /\ r.view.id = BGPId(c.b) /\ r.view.hold = HoldTime(c.b)
+       ELSE /\ MayRefuse(c.b, c.cfg)
+            /\ r.e.kind = "notif" /\ Applies(r.e.n, c.b, c.cfg)
+
+NewOpenOK(c) ==
+  /\ ~c.r.panic
+  /\ c.r.ok = Representable(c.cfg, c.caps)
+  /\ c.r.ok => c.r.b = OpenMsg(c.cfg, c.caps)
+
+TupleOctetOK(v) == v \in 1..3
+AddPathWellFormed(b) ==
+  Len(b) > 0 /\ Len(b) % 4 = 0 /\ \A k \in 1..(Len(b) \div 4) : TupleOctetOK(b[4 * k])
+AddPathOK(c) ==
+  LET r == c.r IN
+  /\ ~r.panic
+  /\ r.ok = AddPathWellFormed(c.b)
+  /\ r.ok =>
+       /\ Len(r.tuples) = Len(c.b) \div 4
+       /\ \A k \in 1..Len(r.tuples) :
+            LET t == r.tuples[k]
+                o == 4 * (k - 1)
+            IN /\ t.afi = c.b[o + 1] * 256 + c.b[o + 2] /\ t.safi = c.b[o + 3]
+               /\ t.tx = (c.b[o + 4] \in {2, 3}) /\ t.rx = (c.b[o + 4] \in {1, 3})
+       /\ r.reenc = c.b
+
+AddPathEncOK(c) ==
+  LET one == <<c.afi \div 256, c.afi % 256, c.safi, (IF c.tx THEN 2 ELSE 0) + (IF c.rx THEN 1 ELSE 0)>> IN
+  c.r.one = one /\ c.r.code = 69 /\ c.r.val = one \o one
+
+MPCapOK(c) == c.r.code = 1 /\ c.r.val = <<c.afi \div 256, c.afi % 256, 0, c.safi>>
+
+(* the reader: messages delivered in order up to the first faulty one *)
+RECURSIVE DeliveredOK(_, _, _, _)
+DeliveredOK(ms, got, k, endrec) ==
+  \* ms: messages framing extracts; got: what the reader delivered; k: position
+  IF k > Len(ms) THEN [ok |-> Len(got) = k - 1, stopped |-> FALSE]
+  ELSE LET m == ms[k] IN
+    IF m.type = TypeOpen /\ ~StructurallySound(m.body)
+      THEN [ok |-> Len(got) = k - 1 /\ StructRefusalOK(endrec, m.body), stopped |-> TRUE]
+    ELSE IF m.type = TypeNotification /\ Len(m.body) < 2
+      THEN [ok |-> Len(got) = k - 1 /\ endrec.kind = "other", stopped |-> TRUE]
+    ELSE IF Len(got) < k THEN [ok |-> FALSE, stopped |-> TRUE]
+    ELSE IF /\ got[k].type = m.type
+            /\ (m.type = TypeUpdate => got[k].body = m.body)
+            /\ (m.type = TypeNotification =>
+                   got[k].n = NRec(m.body[1], m.body[2], SubSeq(m.body, 3, Len(m.body))))
+      THEN DeliveredOK(ms, got, k + 1, endrec)
+      ELSE [ok |-> FALSE, stopped |-> TRUE]
+
+DeframeOK(c) ==
+  LET r == c.r
+      d == Deframe(c.b)
+      x == DeliveredOK(d.msgs, r.msgs, 1, r.end)
+  IN
+  /\ ~r.panic
+  /\ x.ok
+  /\ ~x.stopped =>
+       IF d.fault = "none" THEN r.end.kind = "eof"
+       ELSE r.end.kind = "notif" /\ r.end.n = FaultNotif(d)
+
+---------------------------------------------------------------------------
+(* AddPeer configuration validity and NewServer router ids (C20) *)
+Family(k) == IF k = "v4" THEN 4 ELSE 6       \* an IPv4-mapped IPv6 address is an IPv6 address
+ValidOptions(c) == (c.hold = 0 \/ c.hold >= 3) /\ c.port \in 1..65535
+ValidConfig(c) ==
+  /\ c.remote # "invalid"
+  /\ c.local = "none" \/ Family(c.local) = Family(c.remote)
+  /\ ~c.las0 /\ ~c.ras0
+
+AddPeerOK(c) ==
+  LET valid == ValidOptions(c) /\ ValidConfig(c) IN
+  /\ ~c.r.panic
+  /\ c.r.ok = valid
+  /\ c.r.listed = IF valid THEN 1 ELSE 0             \* a rejected configuration has no side effect
+  /\ c.r.again = IF valid THEN "exists" ELSE "invalid"
+
+NewServerOK(c) == c.r.ok = (c.id = "v4")
+
 CaseOK(c) ==
   CASE c.f = "attr" -> AttrOK(c)
+    [] c.f = "addpeer" -> AddPeerOK(c)
+    [] c.f = "newserver" -> NewServerOK(c)
+    [] c.f = "notif" -> NotifCodecOK(c)
+    [] c.f = "notifdec" -> NotifDecOK(c)
+    [] c.f = "opendec" -> OpenDecOK(c)
+    [] c.f = "openenc" -> OpenEncOK(c)
+    [] c.f = "openval" -> OpenValOK(c)
+    [] c.f = "newopen" -> NewOpenOK(c)
+    [] c.f = "addpath" -> AddPathOK(c)
+    [] c.f = "addpathenc" -> AddPathEncOK(c)
+    [] c.f = "mpcap" -> MPCapOK(c)
+    [] c.f = "deframe" -> DeframeOK(c)
+    [] c.f = "nopanic" -> ~c.r.panic
     [] c.f = "update" -> UpdateOK(c)
     [] c.f = "errtree" -> ErrTreeOK(c)
     [] c.f = "prefix" -> PrefixOK(c)
